@@ -65,6 +65,11 @@ package tui
 //@ func LightRenderer.csi trusted
 //@ func LightRenderer.disableMouse
 //@ requires r != nil
+// repeat: a non-positive count gives the empty string (window arithmetic may go negative), never a panic.
+//@ func repeat
+//@ property C14
+//@ ensures times <= 0 ==> len(result) == 0
+
 // Resume after SIGCONT: mouse reporting is switched off on the terminal while r.mouse still says it is on -
 // disableMouse writes nothing once the flag is cleared, and Close would then leave the modes enabled on exit.
 //@ func LightRenderer.Resume region @"} else if sigcont && !r.fullscreen && r.mouse {"
